@@ -135,7 +135,7 @@ func genCase(t *rapid.T) Case {
 		case r < 96:
 			op = Op{Op: "tags", Tag: rapid.SampledFrom([]string{"", "latest", "m"}).Draw(t, "last")}
 		default:
-			op = Op{Op: "seek", N: id}
+			op = Op{Op: "seek", N: id, Via: rapid.IntRange(0, 2).Draw(t, "seekVia")}
 			k := rapid.IntRange(1, 8).Draw(t, "nSeek")
 			for j := 0; j < k; j++ {
 				if rapid.Bool().Draw(t, "isSeek") {
@@ -501,7 +501,7 @@ func runCase(c Case) (res vt.Result, fail *vt.Fail) {
 			if isMan || !e.present[n.ID] {
 				continue
 			}
-			moved, f := e.seekScript(ctx, n, op.Seek, when)
+			moved, f := e.seekScript(ctx, n, op.Seek, op.Via, when)
 			if f != nil {
 				return res, f
 			}
@@ -536,8 +536,23 @@ func runCase(c Case) (res vt.Result, fail *vt.Fail) {
 }
 
 // seekScript runs a Read/Seek script on a fetched blob and on a bytes.Reader.
-func (e *env) seekScript(ctx context.Context, n *gen.Node, steps []SeekStep, when string) (moved bool, f *vt.Fail) {
-	rc, err := e.repo.Fetch(ctx, n.Desc)
+func (e *env) seekScript(ctx context.Context, n *gen.Node, steps []SeekStep, via int, when string) (moved bool, f *vt.Fail) {
+	var rc io.ReadCloser
+	var err error
+	switch via {
+	case 1:
+		rc, err = e.repo.Blobs().Fetch(ctx, n.Desc)
+	case 2:
+		// by reference (the digest string): the size comes from the registry's answer
+		var got ocispec.Descriptor
+		got, rc, err = e.repo.Blobs().FetchReference(ctx, n.Desc.Digest.String())
+		if err == nil && (got.Digest != n.Desc.Digest || got.Size != n.Desc.Size) {
+			rc.Close()
+			return false, vt.Failf("C13/fetchreference-descriptor", "%s: Blobs().FetchReference(%s) returned descriptor %s size %d, the blob has size %d", when, n.Desc.Digest, got.Digest, got.Size, n.Desc.Size)
+		}
+	default:
+		rc, err = e.repo.Fetch(ctx, n.Desc)
+	}
 	if err != nil {
 		return false, vt.Failf("C13/fetch-failed", "%s: %v", when, err)
 	}
